@@ -12,8 +12,9 @@ from ..kj import scratch
 LEVEL = "proof"
 
 MANIFEST = {
-    "technique": "Coq proof (row-by-row fidelity of the emitted sml table, hook rows exactly once per state) + parsing the real make_transition_table back + declaration regexes + g++ -fsyntax-only against an interface-only sml stub",
-    "text": ("Theorems C09_rows (rows_of (gen_sml ee T) = spec_rows T: one row per input row in order, same source/event/guard/action/target, gnone/none "
+    "technique": "Coq proof (row-by-row fidelity of the emitted sml table, hook rows exactly once per state, executable reading of the table = table interpreter, declarations exactly once) + parsing the real make_transition_table back + g++ compilation AND execution of the generated unit against a functional mini-sml header",
+    "text": ("Theorem C09_sem (under the semantics of boost::sml stated in Model/SmlTT.v -- initial state, first-match in table order, external vs internal transitions, "
+             "entry/exit hooks -- reading the generated table makes exactly the table interpreter's callbacks and states, for every table, event sequence and guard oracle); theorems C09_rows (rows_of (gen_sml ee T) = spec_rows T: one row per input row in order, same source/event/guard/action/target, gnone/none "
              "for absent guard/action, no target for rows without next state, initial marker on row 0 only), C09_entry_exit (exactly one entry and one exit "
              "hook row per state of the table incl. target-only states), C09_hooks_only_states, C09_self_consistent (every declaration a row needs -- state, event with its parameter list, guard, action, "
              "(action,event) signature, in controller / interface / implementation / test unit -- is produced exactly once by the per-element blocks of the file "
@@ -21,10 +22,13 @@ MANIFEST = {
              "structure of smgen.innerexpand_sml regenerated into Gen/SmlTmpl.v; the real make_transition_table(...) text parsed back to items and compared "
              "with gen_sml and, independently, with a Python reading of the property; the (kind, name, params) triples read out of the four real files by per-kind regexes equal Decls.decls_file and every reference of refs_cpp is found "
              "exactly once; smgen.CTransitionTableModel vs Model/TTable.v on a batch of its own, the model following Gen/TTModelSrc.v (translator obligations on the "
-             "containers and the signature key); both translation units type-checked by g++ -std=c++17 -fsyntax-only against harness/stubs/boost/sml.hpp."),
+             "containers and the signature key); both translation units type-checked by g++ -std=c++17 -fsyntax-only against harness/stubs/boost/sml.hpp; the same stated semantics is run in Python over the "
+             "rows parsed back from the real text (vs the interpreter and vs the extracted sml_run), and for non-threaded cases the generated implementation unit is compiled with a "
+             "recording controller subclass against the FUNCTIONAL mini-sml header and executed: callback lines and Is<State>() flags vs the interpreter."),
     "note": ("Self-consistency is proved for names, parameter lists and multiplicities of declarations; C++ type checking itself (name lookup, overload resolution, member "
-             "types) stays OBSERVED by g++ -fsyntax-only against the stub, not proved. The sml stub stands in for boost::sml "
-             "(empty submodule): it checks that referenced names exist and are callable with the right argument types, not sml's semantics. "
+             "types) stays OBSERVED by g++ -fsyntax-only against the stub, not proved. harness/stubs/boost/sml.hpp stands in for boost::sml "
+             "(empty submodule): it implements the semantics STATED in Model/SmlTT.v for the subset used, it is not boost::sml; whether boost::sml itself orders exit/action/entry "
+             "as stated is the assumption of C09_sem. "
              "Proved about smgen as repaired by three fix: commits ('' next state internal, hooks for target-only states, signature key)."),
 }
 RULE = ("random well-formed tables (as C08: multi-row groups, target-only states, all absent spellings incl. '' next state, repeated rows) plus tables with "
@@ -33,11 +37,12 @@ RULE = ("random well-formed tables (as C08: multi-row groups, target-only states
         "non-trivial = table has a target-only state, an absent guard/action/target or a colliding signature; distinct = (table, interface, options)")
 ASSUMPTIONS = ["forallb row_ok T: start state and event are UpperCamelCase alphanumeric identifiers, next/action/guard are such identifiers or an absent spelling",
                "defaults only on a trailing run of an event's members; member types are C++ primitive types",
-               "no guard is named Gnone/gnone (its functor instance would be the always-true guard's name) and no action/guard is named <State>OnEntry/OnExit"]
+               "sml_names_ok: no guard is named Gnone/gnone (its functor instance would be the always-true guard's name); no action/guard is named <State>OnEntry/OnExit",
+               "the semantics of boost::sml as stated in Model/SmlTT.v (C09_sem's assumption)"]
 TRUSTED = ["Coq 8.16.1 kernel (coqc; coqchk in the thorough tier)", "axioms: none",
            "translator/smltmpl.py (ast of smgen.innerexpand_sml and the two replace_NONE helpers, regexes on the template, fail closed)",
            "extraction: ExtrOcamlBasic + ExtrOcamlNativeString; ocaml/cmds_sm.ml",
-           "harness row parser / declaration regexes; harness/stubs/boost/sml.hpp and minunit.h (interface-only stand-ins)",
+           "harness row parser / declaration regexes; harness/stubs/boost/sml.hpp (functional stand-in with the stated semantics) and minunit.h",
            "modelled, not verified: boost::sml's reading of the table (row without `= state<..>` is internal, `*` marks the initial state); g++ 14 as type checker"]
 ALLOWED_AXIOMS = []
 
@@ -153,7 +158,132 @@ def gxx(d, unit, dll=""):
     return p.returncode, out
 
 
-def one_case(ctx, table, spec, ns, dll, compile_it):
+def py_sml_run(items, evs, bits):
+    """The stated sml semantics (Model/SmlTT.v) read off the rows parsed back from the REAL table text: [(callbacks, state)]."""
+    rows = [i for i in items if i[0] == "row"]
+
+    def hooks(kind, s, e):
+        out = []
+        for i in items:
+            if i[0] == kind and i[1] == s:
+                suffix = "OnEntry" if kind == "entry" else "OnExit"
+                out.append((kind, s, e) if i[2] == camel(s) + suffix else ("action", i[2], e))
+        return out
+    init = next((r[2] for r in rows if r[1] == "1"), "")
+    res = [(hooks("entry", init, "EventStartup"), init)]
+    cur, n = init, 0
+    for e in evs:
+        cbs = []
+        for r in rows:
+            if r[2] != cur or r[3] != e:
+                continue
+            if r[4] != "gnone":
+                cbs.append(("guard", r[4], e))
+                ok = bits[n] if n < len(bits) else False
+                n += 1
+                if not ok:
+                    continue
+            act = [] if r[5] == "none" else [("action", r[5], e)]
+            if r[7] == "1":
+                cbs += hooks("exit", cur, e) + act
+                cur = r[6]
+                cbs += hooks("entry", cur, e)
+            else:
+                cbs += act
+            break
+        res.append((cbs, cur))
+    return res
+
+
+def camel_quiet_interp(table, evs, bits):
+    out = []
+    for cbs, s in smlib.py_table_interp(table, evs, bits):
+        out.append(([(k, camel(n) if k in ("guard", "action") else n, e) for k, n, e in cbs if k != "notrans"], s))
+    return out
+
+
+def driver_cpp(table, spec, ns, evs_with_args, bits):
+    """A main() that subclasses the generated controller with recording overrides and drives the generated machine."""
+    st, _ev, _ac, gu = smlib.names(table)
+    members = {nm: mem for nm, mem in spec["structs"]}
+    sigs = []
+    for r in table:
+        if not smlib.is_none(r[3]) and (r[3], r[1]) not in sigs:
+            sigs.append((r[3], r[1]))
+    o = ['#include "%sStateMachine.h"' % NAME, "#include <cstdio>", "#include <vector>", "using namespace %s;" % ns,
+         "static std::vector<int> bits = {%s};" % ", ".join("1" if b else "0" for b in bits), "static unsigned nb = 0;",
+         "struct Ctl : public I%sController {" % NAME]
+    for g in gu:
+        o.append('  bool %s() override { std::printf("%s\\n"); bool b = nb < bits.size() && bits[nb]; nb++; return b; }' % (g, g))
+    for s_ in st:
+        o.append('  void %s_on_entry() override { std::printf("%s_on_entry\\n"); }' % (s_, s_))
+        o.append('  void %s_on_exit() override { std::printf("%s_on_exit\\n"); }' % (s_, s_))
+    for a, e in sigs:
+        fmt = " ".join("%s=%%g" % m[0] for m in members.get(e, []))
+        args = "".join(", (double)data.%s" % m[0] for m in members.get(e, []))
+        o.append('  void %s(%s const& data) override { (void)data; std::printf("%s %s %s\\n"%s); }' % (a, e, a, e, fmt, args))
+    o.append("};")
+    o.append("static void snap(I%sStateMachine* sm) { std::printf(\"--%s\\n\"%s); }" % (
+        NAME, "".join(" %d" for _ in st), "".join(", (int)sm->Is%s()" % s_ for s_ in st)))
+    o.append("int main() { Ctl c; I%sStateMachine* sm = I%sStateMachine::Create(c); snap(sm);" % (NAME, NAME))
+    for e, args in evs_with_args:
+        o.append("  sm->Trigger%s(%s); snap(sm);" % (e, ", ".join(str(a) for a in args)))
+    o.append("  return 0; }")
+    return "\n".join(o) + "\n"
+
+
+def run_compiled(d, table, spec, ns, dll, evs_with_args, bits):
+    """Compile the generated implementation unit + a driver against the functional mini-sml header and run it.
+    Returns ([(callback lines, Is-flags)], None) or (None, why)."""
+    with open(os.path.join(d, "driver.cpp"), "w") as f:
+        f.write(driver_cpp(table, spec, ns, evs_with_args, bits))
+    cmd = ["g++", "-std=c++17", "-O0", "-I" + d, "-I" + STUBS] + (["-D%s=" % dll] if dll else []) + [
+        os.path.join(d, "driver.cpp"), os.path.join(d, "%sStateMachineImpl_SML.cpp" % NAME), "-o", os.path.join(d, "drv")]
+    p = subprocess.run(cmd, stdout=subprocess.PIPE, stderr=subprocess.STDOUT, timeout=300)
+    if p.returncode:
+        errs = [l for l in p.stdout.decode("utf-8", "replace").split("\n") if "error" in l][:3]
+        return None, "g++ (driver + implementation unit): " + " | ".join(errs)
+    r = subprocess.run([os.path.join(d, "drv")], stdout=subprocess.PIPE, stderr=subprocess.STDOUT, timeout=60)
+    if r.returncode:
+        return None, "the compiled machine exited with status %d" % r.returncode
+    steps, cur = [], []
+    for line in r.stdout.decode("utf-8", "replace").split("\n"):
+        if line.startswith("--"):
+            steps.append((cur, [int(x) for x in line[2:].split()]))
+            cur = []
+        elif line.strip():
+            cur.append(line.strip())
+    return steps, None
+
+
+def exec_compiled_case(d, table, spec, ns, dll, evs_with_args, bits):
+    st = smlib.names(table)[0]
+    members = {nm: [m[0] for m in mem] for nm, mem in spec["structs"]}
+    steps, why = run_compiled(d, table, spec, ns, dll, evs_with_args, bits)
+    if steps is None:
+        return why
+    want = [([c for c in cbs if c[0] != "notrans"], s) for cbs, s in smlib.py_table_interp(table, [e for e, _a in evs_with_args], bits)]
+    if len(steps) != len(want):
+        return "the compiled machine printed %d steps, expected %d" % (len(steps), len(want))
+    for i, ((lines, flags), (cbs, s)) in enumerate(zip(steps, want)):
+        exp = []
+        for kind, nm, e in cbs:
+            if kind == "guard":
+                exp.append(nm)
+            elif kind in ("exit", "entry"):
+                exp.append("%s_on_%s" % (nm, kind))
+            else:
+                ev, args = evs_with_args[i - 1]
+                exp.append(("%s %s %s" % (nm, e, " ".join("%s=%g" % (m, a) for m, a in zip(members.get(e, []), args)))).strip())
+        where = "construction" if i == 0 else "Trigger%s (event %d)" % (evs_with_args[i - 1][0], i)
+        if lines != exp:
+            return "%s: the compiled machine called %r, the table says %r" % (where, lines, exp)
+        if [x for x, f in zip(st, flags) if f] != [s]:
+            return "%s: Is<State>() true for %r, the table says %r" % (where, [x for x, f in zip(st, flags) if f], s)
+    return None
+
+
+def one_case(ctx, table, spec, ns, dll, compile_it, evs_with_args=None, bits=None):
     """Returns (failure description or None, finding key)."""
     with scratch() as d:
         with kj.quiet():
@@ -180,6 +310,23 @@ def one_case(ctx, table, spec, ns, dll, compile_it):
             return "sml row %d is %r, the table says %r" % (k, got_rows[k:k + 1], rows[k:k + 1]), "sml-rows"
         if got_hooks != hooks:
             return "entry/exit hook rows %r, the table's states need %r" % (got_hooks, hooks), "sml-hooks"
+        if evs_with_args is not None:
+            evs = [e for e, _a in evs_with_args]
+            got = py_sml_run(items, evs, bits)
+            want = camel_quiet_interp(table, evs, bits)
+            if got != want:
+                k = next((j for j, (a, b) in enumerate(zip(got, want)) if a != b), 0)
+                return "reading the emitted table (stated sml semantics), step %d does %r, the table interpreter %r" % (k, got[k], want[k]), "sml-reading"
+            if ctx.km is not None:
+                m1 = smlib.km_steps(ctx.km.call("sml_run", table, evs, smlib.bits_arg(bits)))
+                m2 = smlib.km_steps(ctx.km.call("camel_interp_quiet", table, evs, smlib.bits_arg(bits)))
+                if m2 != want:
+                    ctx.tie_broken("Spec camel_steps(table_interp_quiet) vs the Python reading of the property", {"table": table, "events": evs, "bits": bits})
+                if m1 != m2:
+                    ctx.tie_broken("extracted SmlTT.sml_run differs from the interpreter although C09_sem is proved", {"table": table, "events": evs, "bits": bits})
+                if m1 != got:
+                    ctx.tie_broken("correspondence Python reading of the real table text vs SmlTT.sml_run", {"table": table, "events": evs, "bits": bits})
+            ctx.count("sml_reading_cases")
         smlib.decl_correspondence(ctx, "cpp", files, table, spec)
         r = check_decls(table, spec, files)
         if r:
@@ -191,6 +338,11 @@ def one_case(ctx, table, spec, ns, dll, compile_it):
                 if rc:
                     errs = [l for l in out.split("\n") if "error" in l][:3]
                     return "g++ -fsyntax-only %s: %s" % (unit, " | ".join(errs)), "cpp-typecheck"
+            if evs_with_args is not None and spec.get("usertags", {}).get("StateMachineThread") == "0":
+                r = exec_compiled_case(d, table, spec, ns, dll, evs_with_args, bits)
+                ctx.count("compiled_and_executed")
+                if r:
+                    return r, "cpp-executed-behaviour"
     return None, None
 
 
@@ -204,7 +356,14 @@ def gen_case(rng, i):
     spec = smlib.random_iface_spec(rng, table, "cpp", tags, extra_events=rng.choice([0, 0, 1]))
     ns = rng.choice(["NS", "My::Deep::NS", "kv"])
     dll = rng.choice(["", "", "MY_EXPORT"])
-    return table, spec, ns, dll
+    members = {nm: mem for nm, mem in spec["structs"]}
+    evnames = smlib.names(table)[1] + [nm for nm in members if nm not in smlib.names(table)[1]]
+    evs = []
+    for _ in range(rng.randint(0, 12)):
+        e = rng.choice(evnames)
+        evs.append([e, [rng.randint(0, 1) if m[1] == "bool" else rng.randint(0, 99) for m in members.get(e, [])]])
+    bits = [rng.random() < 0.5 for _ in range(40)]
+    return table, spec, ns, dll, evs, bits
 
 
 KNOWN_PROBES = [
@@ -244,9 +403,11 @@ def run(ctx):
     n = ctx.budget(250, 1500)
     every = 5 if ctx.quick and not ctx.broken else 3
     for i in range(n):
-        table, spec, ns, dll = gen_case(ctx.rng, i)
+        table, spec, ns, dll, evs, bits = gen_case(ctx.rng, i)
         compile_it = (i % every == 0)
-        fail, key = one_case(ctx, table, spec, ns, dll, compile_it)
+        if compile_it and i % (2 * every) == 0:
+            spec["usertags"]["StateMachineThread"] = "0"      # every second compiled case is also executed (non-threaded)
+        fail, key = one_case(ctx, table, spec, ns, dll, compile_it, evs, bits)
         tags = smlib.shape_tags(table)
         ctx.case((json.dumps(table), json.dumps(spec, sort_keys=True), ns, dll),
                  nontrivial=bool(tags & {"target_only_state", "row_without_target", "empty_string_target"}) or any(smlib.is_none(r[4]) or smlib.is_none(r[3]) for r in table))
@@ -256,8 +417,10 @@ def run(ctx):
         if i < 2:
             ctx.sample({"table": table, "iface": spec, "ns": ns, "dll": dll})
         if fail:
-            small = smlib.shrink_rows(table, lambda t: one_case(ctx, t, spec, ns, dll, key == "cpp-typecheck")[0] is not None)
-            ctx.violation(fail, {"table": small, "iface": spec, "ns": ns, "dll": dll, "finding_key": key, "original_table": table})
+            keep = lambda t: [ev for ev in evs if ev[0] in smlib.names(t)[1] + [nm for nm, _m in spec["structs"]]]  # noqa
+            small = smlib.shrink_rows(table, lambda t: one_case(ctx, t, spec, ns, dll, key in ("cpp-typecheck", "cpp-executed-behaviour"), keep(t), bits)[0] is not None)
+            ctx.violation(fail, {"table": small, "iface": spec, "ns": ns, "dll": dll, "finding_key": key, "original_table": table,
+                                 "events": keep(small), "bits": bits})
 
 
 def replay(ctx, data):
@@ -266,7 +429,7 @@ def replay(ctx, data):
         return False
     if data.get("known_probe"):
         return False
-    fail, _key = one_case(ctx, data["table"], data["iface"], data.get("ns", "NS"), data.get("dll", ""), True)
+    fail, _key = one_case(ctx, data["table"], data["iface"], data.get("ns", "NS"), data.get("dll", ""), True, data.get("events"), data.get("bits", []))
     if fail:
         print("replay:", fail)
     return fail is None
